@@ -29,6 +29,24 @@ pub mod c18;
 pub mod c19;
 pub mod c20;
 
+/// A writer that takes at most k bytes per call of `Write::write` (k = 0: everything): `write` may accept less than it is given,
+/// what ends up in the file may not depend on it.  k cycles through 0, 1, 7, 64 from one writer to the next.
+pub struct FragW<'a> { out: &'a mut Vec<u8>, k: usize }
+impl<'a> FragW<'a> {
+	pub fn new(out: &'a mut Vec<u8>) -> FragW<'a> {
+		static N: std::sync::atomic::AtomicUsize = std::sync::atomic::AtomicUsize::new(0);
+		FragW { out, k: [0, 1, 7, 64][N.fetch_add(1, std::sync::atomic::Ordering::Relaxed) % 4] }
+	}
+}
+impl std::io::Write for FragW<'_> {
+	fn write(&mut self, buf: &[u8]) -> std::io::Result<usize> {
+		let n = if self.k == 0 { buf.len() } else { buf.len().min(self.k) };
+		self.out.extend_from_slice(&buf[..n]);
+		Ok(n)
+	}
+	fn flush(&mut self) -> std::io::Result<()> { Ok(()) }
+}
+
 pub fn exec(prop: &str, v: &Value) -> Result<Value> {
 	crate::proj_quill::REV.with(|r| r.set(v.get("rev").and_then(Value::as_bool).unwrap_or(false) || std::env::var_os("VERIF_REV").is_some()));
 	match prop {
